@@ -173,6 +173,8 @@ def run(ctx) -> None:
     ctx.rule("R09.7", "no other writer of buffers / shared list")
     from . import c01
     from .common import Relabel
+    ctx.rule("R09.13", "an item is retained only while a live child still has to yield it: the tee object refers to its children's "
+                       "buffers only through the list a finished child removes its buffer from (R20.8, shared)")
     ctx.rule("R09.11", "every item of the source reaches every child: no value an item could have (None, a constant) is read as "
                        "\"the source is exhausted\" (R01.7, shared)")
     c01.r01_7(Relabel(ctx, "R09.11"))
@@ -339,6 +341,8 @@ def r09_5(ctx, P) -> None:
     # decided on the evaluated construction (object model) whatever statements build it; the statement-shape
     # rule below is the fallback when the construction cannot be evaluated
     from . import objmodel
+    if objmodel.tee_construction(ctx, "R09.13", P, retention=True) is None:
+        ctx.note("R09.13: the construction of tee is not evaluable over the object model (R20.2 decides what the children retain)")
     if objmodel.tee_construction(ctx, "R09.5", P) is not None:
         return
     init = ctx.inlined(ctx.unit("itertools.Tee.__init__"))  # children may be built by a private helper method
